@@ -85,20 +85,21 @@ TL1Call ==
   /\ UNCHANGED <<src, blk, nReorgs, nL1, local, data, hdrs, l1, memFloor, fetched, notify, stuck,
                  hslot, lslot, pr, pending, keepMax, pc, vw, nViews, restarts, perr, flags>>
 
-\* silent: l1HeadFeed.Send inside SetL1Head
-L1Send ==
-  /\ l1pend # NoL1 /\ ~l1sent
-  /\ lslot' = IF lslot = 0 THEN l1pend.tag ELSE lslot
-  /\ l1sent' = TRUE
-  /\ UNCHANGED <<src, blk, nReorgs, fin, nL1, local, data, hdrs, l1, l1pend, memFloor, fetched, notify, stuck,
-                 hslot, pr, pending, keepMax, pc, vw, nViews, restarts, perr, l, flags>>
-
+\* the database write inside SetL1Head (logged at the commit), first since fix 6cdd267
 TSetL1 ==
   /\ IsEvent("SetL1")
-  /\ l1pend # NoL1 /\ l1sent /\ l1pend.n = Ev.n /\ l1pend.tag = Ev.tag
-  /\ l1' = l1pend /\ l1pend' = NoL1 /\ l1sent' = FALSE
-  /\ UNCHANGED <<src, blk, nReorgs, fin, nL1, local, data, hdrs, memFloor, fetched, notify, stuck,
+  /\ l1pend # NoL1 /\ ~l1sent /\ l1pend.n = Ev.n /\ l1pend.tag = Ev.tag
+  /\ l1' = l1pend /\ l1sent' = TRUE
+  /\ UNCHANGED <<src, blk, nReorgs, fin, nL1, local, data, hdrs, l1pend, memFloor, fetched, notify, stuck,
                  hslot, lslot, pr, pending, keepMax, pc, vw, nViews, restarts, perr, flags>>
+
+\* silent: l1HeadFeed.Send inside SetL1Head, after the write (l1sent here means "written")
+L1Send ==
+  /\ l1pend # NoL1 /\ l1sent
+  /\ lslot' = IF lslot = 0 THEN l1pend.tag ELSE lslot
+  /\ l1pend' = NoL1 /\ l1sent' = FALSE
+  /\ UNCHANGED <<src, blk, nReorgs, fin, nL1, local, data, hdrs, l1, memFloor, fetched, notify, stuck,
+                 hslot, pr, pending, keepMax, pc, vw, nViews, restarts, perr, l, flags>>
 
 TStored ==
   /\ IsEvent("Stored") /\ Quiet
